@@ -43,6 +43,10 @@ def gen_cases(tier, seed):
     for i in range(20 if tier == "quick" else 2000):
         cases.append({"kind": "flow", "cfg": dzoo.sample_flow_cfg(rng), "seed": env.subseed(seed, "c19f", i), "world": "f32",
                       "cost": 3})
+    # data-dependent initialisation of ActNorm on data that is not centred (moments by cancellation fail in float32)
+    for i in range(6 if tier == "quick" else 120):
+        cases.append({"kind": "actnorm_init", "F": 1 + i % 3, "image": bool(i % 2), "offset": [0.0, 10.0, 100.0, 128.0][i % 4],
+                      "spread": [1.0, 0.1, 2.0][i % 3], "seed": env.subseed(seed, "c19an", i), "world": "f32", "cost": 1})
     # library distributions (log_prob of the float32 object next to its .double() twin; narrow mixture components included:
     # densities evaluated through exp() of a large negative number underflow in float32 long before their logarithm does)
     for i in range(16 if tier == "quick" else 600):
@@ -277,6 +281,8 @@ def run_case(case):
         return run_dist(r, case)
     if kind == "naive_cond":
         return run_naive_cond(r, case)
+    if kind == "actnorm_init":
+        return run_actnorm_init(r, case)
     try:
         if kind == "zoo":
             cfg = case["cfg"]
@@ -388,6 +394,43 @@ def run_case(case):
     except Exception as e:
         r.count("late_conversion_raised")
     r.sample({"family": label, "policy": case["policy"], "x0": x[0].reshape(-1)[:5]})
+    return r.done()
+
+
+def run_actnorm_init(r, case):
+    from nflows import transforms as T
+    F_, seed = case["F"], case["seed"]
+    g = torch.Generator().manual_seed(seed)
+    shape = [F_, 3, 2] if case["image"] else [F_]
+    x = (case["offset"] + case["spread"] * torch.randn([40] + shape, generator=g)).float()
+    m = T.ActNorm(F_)
+    m64 = twin(m)
+    m.train(); m64.train()
+    det = dict(features=F_, image=case["image"], offset=case["offset"], spread=case["spread"])
+    try:
+        with torch.no_grad():
+            o32, l32 = m(x)
+            o64, l64 = m64(x.double())
+    except Exception as e:
+        r.inconc("actnorm initialising call failed %r" % (e,))
+        return r.done()
+    r.ev(x.shape[0])
+    r.count("twin_items", x.shape[0])
+    r.count("actnorm_init_items", x.shape[0])
+    ratio = 1 + case["offset"] / case["spread"]
+    le = float((l32.double() - l64).abs().max())
+    oe = float((o32.double() - o64).abs().max())
+    # centred two-pass moments in float32: relative error of the scale ~ eps32 * (1 + |mean| / std) (as for BatchNorm above)
+    allowed_l = 64 * E32 * F_ * (6 if case["image"] else 1) * ratio + 64 * E32 * (1 + float(l64.abs().max()))
+    allowed_o = 64 * E32 * ratio * (1 + float(o64.abs().max()))
+    r.worst("actnorm_init_lad_err/allowed", le / allowed_l)
+    r.worst("actnorm_init_out_err/allowed", oe / allowed_o)
+    if le > allowed_l or oe > allowed_o or not (torch.isfinite(o32).all() and torch.isfinite(l32).all()):
+        r.viol("statistics_disagree", "ActNorm's data-dependent initialisation in float32 disagrees with the float64 twin", lad_err=le,
+               out_err=oe, allowed_lad=allowed_l, allowed_out=allowed_o, **det)
+    else:
+        r.cell("actnorm_init", case["offset"], case["spread"], case["image"])
+    r.sample({"actnorm_init": det})
     return r.done()
 
 
@@ -661,8 +704,12 @@ def run_spline(r, case):
         # (inverse direction: closed-form roots lose up to half the digits where their discriminant vanishes -> sqrt(eps32))
         #  (4096: in 1.2e6 points per parameter scale the tail of the float32 error of the rational-quadratic inverse reaches
         #   1.4x the former 1024 bound; old and regrouped coefficient formulas have identical error distributions)
+        # (the eps32 / slope term belongs to slopes obtained by differencing cumulative sums: every direction of the
+        #  quadratic / cubic / rq splines and the INVERSE of the linear one; the forward linear spline reads its density from
+        #  the softmax itself and is accurate to eps32)
+        diffed = not (fam == "linear" and not inv)
         allowed_l = 256 * E32 * (1 + l64.abs()) + (4096 if inv else 256) * E32 * sens * (hi - lo) + \
-            4 * K * E32 * torch.exp(l64.abs().clamp(max=30.0))
+            (4 * K * E32 * torch.exp(l64.abs().clamp(max=30.0)) if diffed else 0.0)
         ok = fin64
         r.worst("spline_out_err/allowed", float((oe / allowed_o)[ok].max()))
         # knots of the piecewise-LINEAR spline: either adjacent slope is right, rounding decides -> compare away from knots
